@@ -414,6 +414,9 @@ def run(ctx, chk):
     for gname, p in ps.items():
         structure_rules(ctx, chk, p.G, gname, p)
     argument_swap_rule(ctx, chk)
+    from . import shared
+    if not shared.identity_on_values(ctx, chk, "C08.5", ("roberta_generator.py", "stochastic_game_from_roborta_board.py")):
+        chk.ok("C08.5", "roberta_generator.py", "no identity comparison (`is`) between computed values in the generator")
     from . import C11
     C11.r5_manual_entry(ctx, chk, "C08.4")      # the manual entry point hands the board and the probabilities on unchanged
     _canary(ctx, chk)
